@@ -260,6 +260,7 @@ class Interp:
         self.types = dict(types or {})          # term key -> ClassInfo
         self.no_inline = set(no_inline)         # short quals never inlined
         self._assign_trackers = []
+        self.asserted_domains = {}
         self._with_hooks = {}
         self._with_fired = set()
         self._plain_loops = set()
@@ -507,7 +508,64 @@ class Interp:
     def st_Assert(self, st, fr):
         c = self.ev(st.test, fr)
         self.emit('assert', st, fr, cond=c)
+        t = st.test
+        if isinstance(t, ast.Compare) and len(t.ops) == 1 and isinstance(t.ops[0], ast.In) and \
+                isinstance(t.comparators[0], (ast.List, ast.Tuple, ast.Set)) and t.comparators[0].elts and all(
+                    isinstance(e, ast.Constant) and isinstance(e.value, int) and not isinstance(e.value, bool)
+                    for e in t.comparators[0].elts):
+            # `assert n in [1, 2]`: past this point n is one of these (used to enumerate `range(n)`)
+            self.asserted_domains[self.ev(t.left, fr).key] = sorted({e.value for e in t.comparators[0].elts})
         return TRUE
+
+    def _range_domain(self, it):
+        """(n, [d1 < d2 < ...]) when `it` is range(n) and n is known to be one of a few small constants (asserted on the path,
+        or an attribute whose constructor asserts it)"""
+        at = it.single_atom()
+        if at is None or at.kind != 'call' or at.args[0] != 'range' or at.args[2] or len(at.args[1]) != 1:
+            return None
+        n = at.args[1][0]
+        dom = self.asserted_domains.get(n.key)
+        na = n.single_atom()
+        if dom is None and na is not None and na.kind == 'attr' and isinstance(na.args[1], str):
+            ci = self.class_of(na.args[0])
+            doms = getattr(self.prog, 'attr_domains', {})
+            if ci is not None:
+                for c in ci.mro():
+                    dom = dom or doms.get((c.qual, na.args[1]))
+            else:
+                cands = [v for (cq, an), v in doms.items() if an == na.args[1]]
+                if cands and all(v == cands[0] for v in cands):
+                    dom = cands[0]
+        if not dom or min(dom) < 0 or max(dom) > 4:
+            return None
+        return n, sorted(dom)
+
+    def _for_over_domain(self, st, fr, n, dom):
+        """for i in range(n), n in dom: iteration i runs iff n > i, i.e. iff n is one of the larger values"""
+        live = TRUE
+        for i in range(max(dom)):
+            bigger = [d for d in dom if d > i]
+            c = TRUE if len(bigger) == len(dom) else T.mk_or([T.mk_cmp('==', n, Term.num(d)) for d in bigger])
+            if c.key == TRUE.key:
+                self.assign(st.target, Term.num(i), fr, st, quiet=True)
+                l = self.exec_block(st.body, fr)
+                if l.key != TRUE.key:
+                    live = T.mk_and([live, l])
+                    self.pc.append(l)
+                continue
+            env0, heap0 = fr.env, self.heap
+            fr.env, self.heap = dict(env0), dict(heap0)
+            n0 = len(self.pc)
+            self.pc.append(c)
+            self.assign(st.target, Term.num(i), fr, st, quiet=True)
+            l = self.exec_block(st.body, fr)
+            del self.pc[n0:]
+            then = (fr.env, self.heap, l)
+            fr.env, self.heap = env0, heap0
+            r = self._join(fr, c, then, (dict(env0), dict(heap0), TRUE))
+            if r.key != TRUE.key:
+                live = T.mk_and([live, r])
+        return live
 
     def st_Break(self, st, fr):
         self.emit('break', st, fr)
@@ -840,6 +898,10 @@ class Interp:
         rng_items = small_range_items(it)
         if rng_items is not None:
             it = T.mk_tuple(rng_items)
+        rd = self._range_domain(it) if rng_items is None else None
+        if rd is not None and not st.orelse and not any(
+                isinstance(n_, (ast.Break, ast.Continue)) for b_ in st.body for n_ in ast.walk(b_)):
+            return self._for_over_domain(st, fr, rd[0], rd[1])
         ia = it.single_atom()
         if ia is not None and ia.kind == 'ite' and not st.orelse:
             # for x in (A if c else B)  ==  if c: for x in A   else: for x in B
